@@ -52,6 +52,9 @@ def fp_compare_guards(rng):
             out.append(("guard-double-expr/%s/%s" % (op, order), cmp_.replace("1.5", "(d * 2.0)")))
             out.append(("guard-parenthesised/%s/%s" % (op, order), "(%s)" % cmp_))
             out.append(("guard-disj-int/%s/%s" % (op, order), "i > 5 || %s" % cmp_))
+            # the comparison as the condition of an inline-if inside an integer-typed guard
+            out.append(("guard-inline-if-condition/%s/%s" % (op, order), "i == (%s ? 1 : 0)" % cmp_))
+            out.append(("guard-inline-if-condition-nested/%s/%s" % (op, order), "j < 3 && ((%s ? i : 0) > 0 || b)" % cmp_))
     return out
 
 
@@ -87,6 +90,8 @@ def systematic_fp(rng):
                 uses.append(("guard/%s" % op, {"guard": "%s %s %s" % (ct, op, vt)}))
                 uses.append(("guard-reversed/%s" % op, {"guard": "%s %s %s" % (vt, op, ct)}))
             uses.append(("guard-conjunct", {"guard": "i >= 0 && %s < %s" % (ct, vt)}))
+            uses.append(("guard-inline-if-condition", {"guard": "i == (%s < %s ? 1 : 0)" % (ct, vt)}))
+            uses.append(("update-inline-if-condition", {"update": "i = (%s >= %s ? 1 : 0)" % (ct, vt)}))
             for op in ("<", "<="):
                 uses.append(("invariant/%s" % op, {"inv": "%s %s %s" % (ct, op, vt)}))
             if "-" not in ct:
@@ -197,6 +202,11 @@ def run(rep, tier, seed):
     # priorities
     items.append(("priority", "process-priorities", model(GDECL, [templ("P"), templ("Q")], "system P < Q;"), {1, 2}))
     items.append(("priority", "channel-priorities", model(GDECL + " chan priority bc < default;", [templ("P")], sys1), {1, 2}))
+    for desc, decl in [("single-channel", " chan priority bc;"), ("one-level-list", " broadcast chan b2; chan priority bc, b2;"),
+                       ("list-with-default", " chan priority bc, default;"), ("default-only", " chan priority default;"),
+                       ("array-elements", " broadcast chan ba[2]; chan priority ba[0], ba[1], bc;"),
+                       ("default-first", " chan priority default < bc;"), ("two-levels-list", " broadcast chan b2; chan priority bc, b2 < default;")]:
+        items.append(("priority", "channel-priorities/" + desc, model(GDECL + decl, [templ("P")], sys1), {1, 2}))
     items.append(("priority", "three-levels", model(GDECL, [templ("P"), templ("Q"), templ("R")], "system P < Q, R;"), {1, 2}))
     # controls: feature-free models must parse; (over-caution is only an observation)
     controls = [("control", "plain", model(GDECL, [templ("P", guard="x < 2 && i == 0", inv="x <= 5", update="x = 0, i = 1")], sys1), set()),
